@@ -17,3 +17,23 @@ func notifyUnbound(k string) {
 		VerifUnboundObserver(k)
 	}
 }
+
+// VerifCallObserver, when set, is called by evalCall with the name of the
+// called template just before its body starts executing (enter = true, after
+// the call's params have been evaluated in the caller) and when the body has
+// finished (enter = false; not called when the body fails: the render is
+// abandoned then).  Together with VerifUnboundObserver it tells a harness
+// which template was executing when a lookup missed.  Not safe for concurrent
+// renders.
+var VerifCallObserver func(template string, enter bool)
+
+func notifyCall(template string, enter bool) {
+	if VerifCallObserver != nil {
+		VerifCallObserver(template, enter)
+	}
+}
+
+// VerifSetCallObserver installs VerifCallObserver.  It is a method so that a
+// harness can find out with an interface assertion whether the tree it is
+// built against has this hook.
+func (Tofu) VerifSetCallObserver(f func(template string, enter bool)) { VerifCallObserver = f }
